@@ -3,13 +3,14 @@
 From GD Require Import Base.Prelude Model.Strings Model.Net Model.Valve Spec.Rand Spec.ValveSpec.
 
 Definition gen_engine : G engine :=
-  gen* k := below 12 in
+  gen* k := below 16 in
   if k <? 3 then gret (Source None)
-  else if k <? 6 then gen* a := pick 440 [240; 440; 730; 2400; 632360; 33930; 4000; 65535; 65536] in gret (Source (Some (a, None)))
-  else if k <? 8 then gen* a := pick 440 [440; 251570; 740] in gen* d := pick 1 [556450; 17; 65540] in gret (Source (Some (a, Some d)))
-  else if k =? 8 then gret (Source (Some (2400, None)))
-  else if k =? 9 then gret (Source (Some (240, None)))
-  else if k =? 10 then gret (GoldSrc false)
+  else if k <? 5 then gen* a := pick 440 [440; 730; 33930; 4000; 65535; 65536] in gret (Source (Some (a, None)))
+  else if k <? 7 then gen* a := pick 440 [440; 251570; 740] in gen* d := pick 1 [556450; 17; 65540] in gret (Source (Some (a, Some d)))
+  else if k <? 9 then gret (Source (Some (2400, None)))      (* The Ship *)
+  else if k <? 11 then gret (Source (Some (240, None)))      (* CS:S, protocol 7 split layout *)
+  else if k <? 13 then gret (Source (Some (632360, None)))   (* Risk of Rain 2, rule "Test" dropped *)
+  else if k =? 13 then gret (GoldSrc false)
   else gret (GoldSrc true).
 Definition gen_toggle : G toggle := pick Try [Skip; Try; Enforce].
 Definition gen_gather : G (option gathering) :=
@@ -79,7 +80,7 @@ Definition gen_player (e : engine) : G player_state :=
   gret (mk_ps idx name (to_signed 32 sc) dur ship).
 Definition gen_count : G N :=
   gen* k := below 10 in
-  if k =? 0 then gret 0 else if k =? 1 then gret 1 else if k =? 2 then gret 2 else if k =? 3 then gret 33 else below 8.
+  if k <? 2 then gret 0 else if k =? 2 then gret 1 else if k =? 3 then gret 2 else if k =? 4 then gret 33 else below 8.
 Definition gen_rule (i : N) : G (bytes * bytes) :=
   gen* dup := chance 1 12 in
   gen* k := gtext in gen* v := gtext in
@@ -92,7 +93,7 @@ Definition gen_state (e : engine) : G vstate :=
                            | _ => gen* s := gen_src_info e in gret (SrcInfo s) end) in
   gen* np := gen_count in gen* ps := grepeat (N.to_nat np) (gen_player e) in
   gen* nr := gen_count in gen* rs := gen_rules (N.to_nat nr) 0 in
-  gen* test := chance 1 3 in
+  gen* test := chance 1 4 in
   gret (mk_vstate info ps (if test then (str "Test", str "x") :: rs else rs)).
 
 Definition gen_cuts (len : N) : G (list nat) :=
